@@ -163,7 +163,11 @@ def handle : Handler := fun m j =>
         -- hypotheses and conclusion of C15_illscoped_nodes (no scoping rule)
         ("nodeDisjoint", Json.bool (nodeDisjTops tops)), ("initsOk", Json.bool (initsOkB w nv ng)),
         ("nodesPost", Json.bool (!r.2.2 && initsOkB r.1 nv ng
-          && tops.all (fun t => (allNodeScopes t.tr).all (injB r.1.nname))))])
+          && tops.all (fun t => (allNodeScopes t.tr).all (injB r.1.nname)))),
+        -- C15_illscoped_values: the recorded-scope lists and the conclusion on the model's output
+        ("recLists", Json.arr (tops.flatMap (fun t => (recScopes w.inits t.tr [] []).map natsJ)).toArray),
+        ("recPost", Json.bool (tops.all (fun t => (recScopes w.inits t.tr [] []).all (injB r.1.vname)
+          && (cvals w nv t).all (fun u => truthy (r.1.vname u)))))])
   | "names.fixx" => some do
       -- NameFixPass with a generator (`gen`: "simple" | {"const": s} | {"v": [[id, answer]..], "n": [[id, answer]..]},
       -- a table falls back to the simple generator) and backing tensors
